@@ -78,6 +78,9 @@ def install():
             return True
         self.__dict__['_pv_checked'] = True      # meshes are immutable: check each object once
         faces = [np.asarray(getattr(self.facecenters, ax)) for ax in ('_x', '_y', '_z')][:oracles.NDIM[cls]]
+        if any(f.ndim != 1 or f.size < 2 or not np.all(np.diff(f) > 0) for f in faces):
+            count('C10:skipped_precondition')      # the property quantifies over strictly increasing face positions only
+            return True
         bad = check_mesh(self, cls, faces, 'NL')      # constructor form unknown here: centres / sizes within 8 ulp of the extent
         count('C10:mesh_invariant:' + cls)
         for mech, msg in bad:
